@@ -684,6 +684,22 @@ func runC18(cfg Config) {
 			b = append(b, entry(0o120777)...)
 			b = append(b, symlink(outs[rng.Intn(3)])...)
 		}
+		if benign && it%16 == 10 {
+			// directed: a symlink to a file outside, then a regular file of the same name whose size and mtime are those of
+			// the file the link points to (a writer that compares what is there with what is to be written must not look
+			// through the link, and must not leave the link in place)
+			for d := depth; d > 0; d-- {
+				b = append(b, goodbye()...)
+				depth--
+			}
+			tgt := []string{filepath.Join(sandbox, "outside", "file"), "../outside/file"}[rng.Intn(2)]
+			b = append(b, fname("q")...)
+			b = append(b, entry(0o120777)...)
+			b = append(b, symlink(tgt)...)
+			b = append(b, fname("q")...)
+			b = append(b, entry(0o100777)...)
+			b = append(b, payload([]byte("abcd"))...)
+		}
 		for ; depth >= 0; depth-- {
 			b = append(b, goodbye()...)
 		}
@@ -717,7 +733,7 @@ func runC18(cfg Config) {
 			os.MkdirAll(filepath.Join(sandbox, "outside"), 0755)
 			os.WriteFile(filepath.Join(sandbox, "outside", "file"), []byte("keep"), 0644)
 			os.MkdirAll(filepath.Join(sandbox, "outside", "n0"), 0755)
-			long := time.Unix(1000000000, 0)
+			long := time.Unix(1500000000, 0) // (the mtime the generated entries carry: an outside file may look "up to date")
 			for _, o := range []string{"outside/n0", "outside/file", "outside", "sentinel"} {
 				os.Chtimes(filepath.Join(sandbox, o), long, long)
 			}
